@@ -157,6 +157,13 @@ def check(repo):
     reg = repo.func("toolkit/symmetric_encryption/__init__.py", "get_symmetric_encryption_implementation")
     from .c08 import registry_refuses
     consts = {c.value for c in ast.walk(reg.node) if isinstance(c, ast.Constant) and isinstance(c.value, str)}
+    for nm in {x.id for x in ast.walk(reg.node) if isinstance(x, ast.Name)}:
+        if nm in reg.module.globals:
+            try:
+                v = repo.const_value(reg.module, reg.module.globals[nm])
+                consts |= {x for x in (v if isinstance(v, (list, tuple, set)) else [v]) if isinstance(x, str)}
+            except Exception:
+                pass
     names = {n.id for n in ast.walk(reg.node) if isinstance(n, ast.Name)}
     why = registry_refuses(reg)
     ok = {"aes-cbc", "aes_cbc", "aescbc"} <= consts and "AESxCBC" in names and why is None
